@@ -84,7 +84,8 @@ theorem isRedactableFieldPatternInArray_eq (g : Globals) (T : Tables) (rfn : Boo
                 · rename_i h; cases h; exact absurd rfl hc
                 · rfl
               rw [this]; simpa using ih
-            · simp [asStr, strLen_pos, goAnd, strByte0Is, hc]
+            · have hb : (c == '$') = false := by simpa using hc
+              simp [asStr, strLen_pos, goAnd, strByte0Is, hb]
       | _ =>
         rw [forIn_cons_yield _ xs _ (none, ())]
         · simpa using ih
